@@ -121,7 +121,7 @@ type bval struct {
 // boundaryValues is the directed value set for a length/count/type field.
 func boundaryValues(g *gen.Rand, cur uint64, rem int) []bval {
 	return []bval{
-		{0, "0"}, {1, "1"}, {2, "2"}, {cur - 1, "cur-1"}, {cur + 1, "cur+1"}, {0x7f, "0x7f"}, {0x80, "0x80"}, {0xff, "0xff"},
+		{0, "0"}, {1, "1"}, {2, "2"}, {3, "3"}, {4, "4"}, {5, "5"}, {8, "8"}, {cur - 1, "cur-1"}, {cur + 1, "cur+1"}, {0x7f, "0x7f"}, {0x80, "0x80"}, {0xff, "0xff"},
 		{0xfb, "0xfb"}, {0xfc, "0xfc"}, {0xfd, "0xfd"}, {0xfe, "0xfe"}, {0x7fff, "0x7fff"}, {0x8000, "0x8000"}, {0xffff, "0xffff"},
 		{0xffffff, "2^24-1"}, {math.MaxInt32, "2^31-1"}, {1 << 31, "2^31"}, {math.MaxUint32, "2^32-1"}, {math.MaxInt64, "2^63-1"}, {1 << 63, "2^63"}, {math.MaxUint64, "2^64-1"},
 		{math.MaxUint64 - 3, "2^64-4"}, {uint64(rem), "rem"}, {uint64(rem + 1), "rem+1"}, {uint64(rem - 1), "rem-1"}, {uint64(rem + 4), "rem+4"}, {uint64(g.Intn(256)), "rnd8"}, {uint64(g.Intn(1 << 20)), "rnd20"},
